@@ -576,7 +576,7 @@ func (e *Env) deref(tv TV) TV {
 		}
 		if p.Obj == nil {
 			// definitely nil here (e.g. an error return): the clause must not depend on the value, so it is unconstrained
-			tv = TV{V: e.Fx.SymValue(e.state().Clone(), pt.Elem(), "nilderef", 0), T: pt.Elem()}
+			tv = TV{V: e.Fx.SymValue(e.state(), pt.Elem(), "nilderef", 0), T: pt.Elem()}
 			continue
 		}
 		tv = TV{V: e.Fx.Load(e.state(), p, pt.Elem()), T: pt.Elem()}
